@@ -146,7 +146,8 @@ def step (st : State) (line : String) : State × String :=
         (match c.splitOn ":" with
          | ["blocking", k] | ["backlog", k] | ["timeout", k] => (k.toNat?.map (fun k => decide (1 ≤ k ∧ k ≤ 4096))).getD false
          | _ => false)
-      if 1 ≤ w ∧ w ≤ 8 ∧ 1 ≤ l ∧ l ≤ 16 ∧ w * l ≤ n ∧ n ≤ 64 ∧ cs.all okCall ∧
+      let killOk : Bool := match kv ws "kill" with | none => true | some k => k == "0" || k == "1"
+      if killOk = true ∧ 1 ≤ w ∧ w ≤ 8 ∧ 1 ≤ l ∧ l ≤ 16 ∧ w * l ≤ n ∧ n ≤ 64 ∧ cs.all okCall ∧
           (cs.filter (· == "limit")).length = 1 ∧ (cs.filter (· == "workers")).length = 1 then
         let cfg : Cfg := { limit := l, nIdx := w }
         let ops : List Op := (List.replicate n (Op.env (.connect 0))) ++ [Op.poll [.listener 0, .waker] []]
